@@ -358,7 +358,9 @@ def _classify(name, op, a, U, labels):
             twin = d.clone(keep_id=True)
             def look(doc):
                 # identities included: a link that is resolved again gets new copies
-                return [(id(s_), s_.is_merged, repr(s_.link), repr(s_.include), repr(s_.definition),
+                # ... and is merged with another Section object than before
+                return [(id(s_), s_.is_merged, id(s_.get_merged_equivalent()),
+                         repr(s_.link), repr(s_.include), repr(s_.definition),
                          repr(s_.reference), [id(c) for c in s_.sections],
                          [(id(c), repr(c.values), repr(c.dtype), repr(c.unit), repr(c.definition))
                           for c in s_.properties]) for s_ in doc.itersections(recursive=True)]
